@@ -24,7 +24,7 @@ pub broadcast axiom fn axiom_disp_usize(n: &usize) ensures #[trigger] disp::<usi
 pub broadcast axiom fn axiom_disp_i32(n: &i32) ensures #[trigger] disp::<i32>(n) == dec(*n as int);
 pub broadcast axiom fn axiom_disp_u32(n: &u32) ensures #[trigger] disp::<u32>(n) == dec(*n as int);
 pub broadcast axiom fn axiom_disp_u64(n: &u64) ensures #[trigger] disp::<u64>(n) == dec(*n as int);
-pub broadcast group group_disp { axiom_str_of_str, axiom_str_of_string, axiom_disp_string, axiom_disp_str, axiom_disp_ref, axiom_disp_usize, axiom_disp_i32, axiom_disp_u32, axiom_disp_u64 }
+pub broadcast group group_disp { axiom_indent_of_str, axiom_str_of_str, axiom_str_of_string, axiom_disp_string, axiom_disp_str, axiom_disp_ref, axiom_disp_usize, axiom_disp_i32, axiom_disp_u32, axiom_disp_u64 }
 
 /// the lower-case hexadecimal SHA-256 digest of a text (crate sha256, not modelled)
 pub uninterp spec fn sha256_hex(s: Seq<char>) -> Seq<char>;
@@ -37,6 +37,44 @@ pub fn __vx_sha256_hex<D: AsRef<str>>(d: D) -> (r: String)
     ensures r@ == sha256_hex(str_of(d)), r@.len() == 64, forall|i: int| 0 <= i < 64 ==> is_hex_digit(#[trigger] r@[i])
 { unimplemented!() }
 pub open spec fn is_hex_digit(c: char) -> bool { ('0' <= c <= '9') || ('a' <= c <= 'f') }
+
+/// what kiki's `Indent::indent` produces is not modelled: some function of the text and the level
+pub uninterp spec fn indent_of<S: ?Sized>(s: &S, level: usize) -> Seq<char>;
+pub uninterp spec fn indent_of_seq(s: Seq<char>, level: usize) -> Seq<char>;
+/// ... which for a str depends on its characters only
+pub broadcast axiom fn axiom_indent_of_str(s: &str, level: usize)
+    ensures #[trigger] indent_of::<str>(s, level) == indent_of_seq(s@, level);
+
+// ---------- concatenation and joining of rendered pieces ----------
+pub open spec fn flatten(ss: Seq<Seq<char>>) -> Seq<char>
+    decreases ss.len()
+{
+    if ss.len() == 0 { Seq::empty() } else { flatten(ss.drop_last()) + ss.last() }
+}
+pub open spec fn join_spec(ss: Seq<Seq<char>>, sep: Seq<char>) -> Seq<char>
+    decreases ss.len()
+{
+    if ss.len() == 0 { Seq::empty() } else if ss.len() == 1 { ss[0] } else { join_spec(ss.drop_last(), sep) + sep + ss.last() }
+}
+pub open spec fn str_views(s: Seq<String>) -> Seq<Seq<char>> { s.map_values(|x: String| x@) }
+/// T17 (trusted std semantics): `s.iter().map(f).collect::<String>()` concatenates the results in order.
+/// Stated for every spec function g that describes f's results.
+#[verifier::external_body]
+pub fn __vx_map_concat<'a, T, F: Fn(&'a T) -> String>(s: &'a [T], f: F) -> (r: String)
+    requires forall|i: int| 0 <= i < s@.len() ==> call_requires(f, (&#[trigger] s@[i],)),
+    ensures forall|g: spec_fn(T) -> Seq<char>|
+        (forall|i: int, o: String| 0 <= i < s@.len() && #[trigger] call_ensures(f, (&s@[i],), o) ==> o@ == g(s@[i]))
+        ==> r@ == #[trigger] flatten(s@.map_values(g))
+{ s.iter().map(f).collect() }
+/// T17 (trusted std semantics): `v.join(sep)` for a vector of Strings
+#[verifier::external_body]
+pub fn __vx_join(v: &Vec<String>, sep: &str) -> (r: String)
+    ensures r@ == join_spec(str_views(v@), sep@)
+{ v.join(sep) }
+pub proof fn lemma_flatten_ext(a: Seq<Seq<char>>, b: Seq<Seq<char>>)
+    requires a.len() == b.len(), forall|i: int| 0 <= i < a.len() ==> #[trigger] a[i] == b[i]
+    ensures flatten(a) == flatten(b)
+{ assert(a =~= b); }
 
 /// decimal rendering is injective on naturals
 pub proof fn lemma_dec_nat_len(n: nat)
